@@ -7,8 +7,11 @@ import (
 	"bufio"
 	"bytes"
 	"fmt"
+	"runtime"
 	"strconv"
 	"strings"
+	"sync"
+	"time"
 
 	"github.com/eclipse/paho.mqtt.golang/packets"
 	"github.com/emitter-io/emitter/internal/network/mqtt"
@@ -265,6 +268,42 @@ func step(w []string, _ string) string {
 				return "ref-err"
 			}
 			return fmt.Sprintf("ok %s rest=%d", fromPaho(cp), rd.Len())
+		case "conc":
+			// conc <goroutines> <rounds> <payload size>: the broker encodes packets for many connections at
+			// once (one goroutine per publisher, EncodeTo straight into the subscriber's socket). Every
+			// goroutine encodes its own PUBLISH again and again into a writer that takes the frame in two
+			// halves with a reschedule in between (a socket that accepts part of the data first); what
+			// each writer received must be the sequential encoding of that goroutine's packet.
+			g, rounds, size := int(pu(w[1])), int(pu(w[2])), int(pu(w[3]))
+			bad := make(chan string, g)
+			var wg sync.WaitGroup
+			for i := 0; i < g; i++ {
+				wg.Add(1)
+				go func(i int) {
+					defer wg.Done()
+					pk := &mqtt.Publish{Header: mqtt.Header{QOS: uint8(i % 2)}, Topic: []byte(fmt.Sprintf("t/%d/", i)), MessageID: uint16(256*i + 7),
+						Payload: bytes.Repeat([]byte{byte('a' + i%26)}, size+i)}
+					var ref bytes.Buffer
+					pk.EncodeTo(&ref)
+					for r := 0; r < rounds; r++ {
+						sw := &slowWriter{}
+						if _, err := pk.EncodeTo(sw); err != nil || !bytes.Equal(sw.buf, ref.Bytes()) {
+							select {
+							case bad <- fmt.Sprintf("corrupt goroutine=%d round=%d", i, r):
+							default:
+							}
+							return
+						}
+					}
+				}(i)
+			}
+			wg.Wait()
+			select {
+			case m := <-bad:
+				return m
+			default:
+				return "ok"
+			}
 		case "refenc":
 			var buf bytes.Buffer
 			if err := toPaho(parse(w[1:])).Write(&buf); err != nil {
@@ -279,6 +318,18 @@ func step(w []string, _ string) string {
 		}
 		return "bad-op"
 	})
+}
+
+// slowWriter copies what it is given in two halves and lets other goroutines run in between.
+type slowWriter struct{ buf []byte }
+
+func (s *slowWriter) Write(p []byte) (int, error) {
+	h := len(p) / 2
+	s.buf = append(s.buf, p[:h]...)
+	runtime.Gosched()
+	time.Sleep(20 * time.Microsecond)
+	s.buf = append(s.buf, p[h:]...)
+	return len(p), nil
 }
 
 // remaining counts the bytes not yet pulled into the bufio buffer.
